@@ -8,7 +8,7 @@
 
    Clause names carry the property id (C01_…, C02_…); /verif/lib decides per check which
    clauses it owns, matches them against KNOWN_FINDINGS.json and prints the verdict lines. *)
-EXTENDS Props_Sched, TLC, Json
+EXTENDS Props_Retry, TLC, Json
 
 CONSTANT TraceFile
 Trace == ndJsonDeserialize(TraceFile)
@@ -39,8 +39,9 @@ Reset ==
   /\ E.ev = "Reset"
   /\ c' = E
   /\ LET S == 1..E.n
-         ist == IF "init" \in DOMAIN E THEN E.init ELSE [s \in S |-> NS] IN
-     /\ status' = ist /\ initst' = ist
+         ist == IF "init" \in DOMAIN E THEN E.init ELSE [s \in S |-> NS]
+         sst == IF "start" \in DOMAIN E THEN E.start ELSE ist IN     \* retry: statuses after the retry graph was set up
+     /\ status' = sst /\ initst' = ist
      /\ alive' = [s \in S |-> FALSE] /\ execs' = [s \in S |-> 0] /\ lastOK' = [s \in S |-> FALSE]
      /\ created' = [s \in S |-> FALSE] /\ rwait' = [s \in S |-> FALSE]
      /\ checked' = [s \in S |-> FALSE] /\ pastCheck' = [s \in S |-> FALSE]
@@ -169,6 +170,7 @@ HStatus == /\ E.ev = "HStatus" /\ hst' = [hst EXCEPT ![E.h] = E.st]
 \* ---- end of a run -------------------------------------------------------------------
 Runnable(s) == (\A d \in Deps[s] : DepAllows(status[d], c.contF[d], c.contS[d])) /\ c.pcond[s] # "unmet"
 Plain == ~stopped /\ ~timedOut /\ ~c.dry          \* an undisturbed real run
+IsRetry == "init" \in DOMAIN c
 FinalChecks(run, final) ==
   LET v0 == viol
       v1 == Add(v0, Plain /\ \E s \in Steps : ~c.repeat[s] /\ initst[s] = NS /\
@@ -191,7 +193,14 @@ FinalChecks(run, final) ==
       v11 == Add(v10, stopped /\ ~completedAtStop /\ run # CANC /\ ~AllOK(Steps, status), "C05_StoppedRunNotCanceled")
       v12 == Add(v11, \E s \in Steps : final[s].st # status[s], "DRIFT_SnapshotMismatch")
       v13 == Add(v12, c.dry /\ (run = FIN) # TRUE /\ ~stopped, "C03_DryRunOutcome")
-  IN v13
+      \* ---- C10: this run is a retry of the recorded vector initst
+      rr  == ReRun(Deps, initst)
+      v14 == Add(v13, IsRetry /\ \E s \in Steps : execs[s] >= 1 /\ s \notin rr, "C10_KeptStepExecuted")
+      v15 == Add(v14, IsRetry /\ \E s \in Steps : s \notin rr /\ status[s] # initst[s], "C10_KeptStepChanged")
+      v16 == Add(v15, IsRetry /\ Plain /\ "C10_RetryNeverEnds" \notin viol /\
+                        \E s \in rr : Runnable(s) /\ execs[s] = 0 /\ ~c.repeat[s], "C10_UnfinishedStepNotReRun")
+      v17 == Add(v16, IsRetry /\ Plain /\ "C10_RetryNeverEnds" \notin viol /\ \E s \in Steps : status[s] \in {NS, RUN}, "C10_RetryLeftStepUnfinished")
+  IN v17
 
 ReturnedEv ==
   /\ E.ev = "Returned"
@@ -200,14 +209,20 @@ ReturnedEv ==
   /\ UNCHANGED <<c, status, alive, execs, lastOK, created, rwait, initst, checked, pastCheck, stopped, pastCreate, attAtStop,
                  completedAtStop, sigs, killRound, timedOut, hlog, hst, nruns, facts>>
 
-Known == {"Reset", "Checked", "Status", "ExecCreate", "ExecBegin", "ExecEnd", "RetryWait", "RetryWake", "Kill", "Stop",
+StuckEv == /\ E.ev = "Stuck"
+           /\ viol' = viol \cup {"C10_RetryNeverEnds"}
+           /\ stopped' = TRUE /\ completedAtStop' = FALSE          \* the driver cancels the stuck run right after
+           /\ UNCHANGED <<c, status, alive, execs, lastOK, created, rwait, initst, checked, pastCheck, pastCreate, attAtStop,
+                          sigs, killRound, timedOut, hlog, hst, returned, nruns, facts>>
+
+Known == {"Stuck", "Reset", "Checked", "Status", "ExecCreate", "ExecBegin", "ExecEnd", "RetryWait", "RetryWake", "Kill", "Stop",
           "SignalReturn", "KillRound", "Timeout", "HCreate", "HBegin", "HStatus", "Returned"}
 Other == /\ E.ev \notin Known /\ UNCHANGED <<c, status, alive, execs, lastOK, created, rwait, initst, checked, pastCheck, stopped,
                  pastCreate, attAtStop, completedAtStop, sigs, killRound, timedOut, hlog, hst, returned, viol, nruns, facts>>
 
 Next == /\ l <= Len(Trace) /\ l' = l + 1
         /\ \/ Reset \/ CheckedEv \/ StatusEv \/ ExecCreate \/ ExecBegin \/ ExecEnd \/ RetryWait \/ RetryWake \/ KillEv
-           \/ StopEv \/ SignalReturn \/ KillRound \/ TimeoutEv \/ HCreate \/ HBegin \/ HStatus \/ ReturnedEv \/ Other
+           \/ StopEv \/ SignalReturn \/ KillRound \/ TimeoutEv \/ HCreate \/ HBegin \/ HStatus \/ ReturnedEv \/ StuckEv \/ Other
 Spec == Init /\ [][Next]_vars
 
 \* ---- output -----------------------------------------------------------------------------
@@ -216,7 +231,8 @@ Verdict == [run |-> c.run, viol |-> viol, stop |-> stopped, stopPhase |-> StopPh
             dry |-> c.dry, doneChan |-> c.doneChan, kill |-> killRound,
             anyRepeat |-> \E s \in Steps : c.repeat[s], anyIgnore |-> \E s \in Steps : ~c.obeys[s],
             execs |-> execs, status |-> status, facts |-> facts, n |-> c.n, maxActive |-> c.maxActive,
-            handlers |-> c.handlers, model |-> ("model" \in DOMAIN c)]
+            handlers |-> c.handlers, model |-> ("model" \in DOMAIN c), retry |-> IsRetry,
+            initHasRunning |-> (IsRetry /\ \E s \in Steps : initst[s] = RUN)]
 \* evaluated as an invariant: prints one line per finished run, and one when the trace is consumed
 Emit == /\ (returned /\ l > 1 /\ Trace[l-1].ev = "Returned") => PrintT("VERDICT " \o ToJson(Verdict))
         /\ (l = Len(Trace) + 1) => PrintT("CONSUMED " \o ToString(Len(Trace)) \o " runs " \o ToString(nruns))
